@@ -37,7 +37,7 @@ RULE = ("three-way handshakes between real ClientServerConnection / ServerClient
         "CRC recomputed as an attacker would); hello of a server with a foreign root key; hello re-signed with an attacker key; hello of "
         "another session of the same server; wrong / zero / other-session tokens in a challenge sealed under the right key; challenge sealed "
         "under another key; duplication and reordering of all three datagrams; truncation/extension; unauthenticated application datagrams "
-        "before any key; hellos with further unauthenticated messages stacked behind them in one datagram (both directions); unanswered connect; trust-on-first-use and wrongly pinned clients; followed by application traffic both ways; "
+        "before any key; hellos with further unauthenticated messages stacked behind them in one datagram (both directions); unanswered connect; a genuine server hello that arrives after the client's connect time-out fired (if the client takes it, it must hold the signer's key); trust-on-first-use and wrongly pinned clients; followed by application traffic both ways; "
         "compared with the model: every recv result, event, status and the final state dumps; non-trivial = the script is not 'honest'; plus "
         "honest clients against the REAL UdpServerThread loop over a network that loses nothing but duplicates datagrams, also one iteration "
         "late (a second copy of the hello after the server hello went out): every client must end CONNECTED with the server holding the same "
@@ -117,6 +117,15 @@ def monitor(real, case, log, ctx):
                 if rec["key_after"] is None or len(bytes.fromhex(rec["key_after"])) != 16:
                     ctx.failure("bad-session-key", "client key after the hello is not 16 bytes", {"case": case, "at": at})
                     return
+                # a genuine, unmodified server hello that answers THIS client's hello (c <- s, c2 <- s2): the key the client derives is
+                # the key of the server-side connection that signed it - whenever it arrives
+                signer = {"c": "s", "c2": "s2"}.get(e)
+                if adopted and rec["spec"].startswith("@%s:" % signer) and not rec["muts"] and not rec.get("rekey") and signer in keys \
+                        and keys[signer] and rec["key_after"] != keys[signer]:
+                    ctx.failure("client-key-differs-from-signer", "client %s took the genuine server hello %s and derived key %s, but the "
+                                "server-side connection that signed it holds %s: the ends do not agree on the session key" %
+                                (e, rec["spec"], rec["key_after"], keys[signer]), {"case": case, "at": at})
+                    return
             if rec.get("hsexc") == "InvalidSignature" and (rec["status_after"] != 4 or rec["key_after"] is not None):
                 ctx.failure("invalid-signature-not-disconnected", "client %s after an invalid signature: status %s key %s" %
                             (e, rec["status_after"], rec["key_after"]), {"case": case, "at": at})
@@ -188,7 +197,8 @@ def run(ctx):
     rng = ctx.rng
     n = ctx.scale(400, 6000)
     scripts = ["honest", "flip-client-hello", "flip-server-hello", "foreign-root", "resigned", "other-session", "wrong-token",
-               "other-key-challenge", "dup-reorder", "tofu", "pinned-other", "trunc-ext", "early-app", "no-answer", "stacked", "early-send"]
+               "other-key-challenge", "dup-reorder", "tofu", "pinned-other", "trunc-ext", "early-app", "no-answer", "stacked", "early-send",
+               "late-hello"]
     cases, outputs, logs = [], {}, {}
     for i in range(n):
         script = scripts[i % len(scripts)] if i < 3 * len(scripts) else rng.choice(scripts + ["flip-server-hello"] * 4)
